@@ -286,6 +286,15 @@ func c04PositionProgs() []*Prog {
 			}
 			add(s+"-to-"+t, []Param{{"a", s}}, t, fmt.Sprintf("\tx := %s(a)\n\treturn x + x\n", t), "")
 		}
+		// chains of constant terms on one variable: evaluated left to right in the variable's type (no reassociation:
+		// float rounding and integer wrap-around happen after every step)
+		for ci, ch := range []string{"a + 1 - 1", "a + 1 + 2", "a - 1 + 1", "a + 100 + 100", "a - 100 - 100", "a + 1 + b - 1", "1 + a + 1", "a*2 + 1 - 1", "(a + 1) - 1 + (b - 2) + 2"} {
+			add(fmt.Sprintf("%s/const-chain/%d", t, ci), []Param{{"a", t}, {"b", t}}, t, fmt.Sprintf("\tx := %s\n\tx = x + 1 + 1\n\tx -= 1\n\treturn x\n", ch), "")
+		}
+		if t == "int" {
+			add("int/const-chain/max", []Param{{"a", t}}, t, "\treturn a + 2147483647 + 2147483647\n", "")
+			add("int/const-chain/min", []Param{{"a", t}}, t, "\treturn a - 2147483647 - 2147483647 - 2\n", "")
+		}
 		// comparisons
 		for _, op := range []string{"<", "<=", ">", ">=", "==", "!="} {
 			add(t+"/cmp/"+op, []Param{{"a", t}, {"b", t}}, "bool", fmt.Sprintf("\treturn a %s b\n", op), "")
